@@ -19,6 +19,7 @@
       chain f g         `f @ g` where `g` has a multi-domain target
       sqnorm / quad d   Squared2NormOperator / QuadraticFormOperator(DiagonalOperator d)
       gauss d N         GaussianEnergy(data d, inverse covariance DiagonalOperator N)   (carries a metric)
+      const             ConstantOperator / ConstantEnergyOperator (produced by partial evaluation, C04)
   `eval` is plain evaluation (`op(field)`); `lin e ρ wm` is what `op(Linearization.make_var(ρ, wm))` returns:
   the value, the Jacobian as the composed operator (`jac` = TIMES, `adj` = ADJOINT_TIMES) and the metric,
   transcribing `Linearization.__mul__/_myadd/ptw/vdot/sum/prepend_jac/__getitem__`, `_OpChain/_OpProd/_OpSum.apply`,
@@ -57,6 +58,9 @@ inductive Ex (K : Type) where
   | sqnorm (a : Ex K)
   | quad (d : List K) (a : Ex K)
   | gauss (data icov : List K) (a : Ex K)
+  /-- `ConstantOperator(output)` / `ConstantEnergyOperator(output)` (what `simplify_for_constant_input` leaves behind
+      for an all-constant sub-operator): value `v` on the domain `d`, empty input domain -/
+  | const (energy : Bool) (d : Dom) (v : String → Nat → K)
 
 /-- target domain of an expression -/
 def Ex.dom {K : Type} : Ex K → Dom
@@ -77,6 +81,7 @@ def Ex.dom {K : Type} : Ex K → Dom
   | .sqnorm _ => [("", 1)]
   | .quad _ _ => [("", 1)]
   | .gauss _ _ _ => [("", 1)]
+  | .const _ d _ => d
 
 /-- keys read from the environment -/
 def Ex.inDom {K : Type} : Ex K → Dom
@@ -97,6 +102,7 @@ def Ex.inDom {K : Type} : Ex K → Dom
   | .sqnorm a => a.inDom
   | .quad _ a => a.inDom
   | .gauss _ _ a => a.inDom
+  | .const _ _ _ => []
 
 section defs
 variable {K : Type} [Zero K] [Add K] [Sub K] [Mul K] [Div K] [Neg K] [OfScientific K]
@@ -138,6 +144,7 @@ def eval : Ex K → MVal K → MVal K
       single (fun i => if i = 0 then
         (0.5 : K) * dsum a.dom (fun k j => (eval a ρ k j - ofList data j) * (ofList icov j * (eval a ρ k j - ofList data j)))
         else 0)
+  | .const _ _ v, _ => v
 
 /-- what a `Linearization` carries -/
 structure Lz (K : Type) where
@@ -251,6 +258,10 @@ def lin : Ex K → MVal K → Bool → Lz K
         adj := fun y => la.adj (bcast a.dom y (fun k j => ofList icov j * r k j)),
         -- res.add_metric(self._icov), then prepend_jac sandwiches it
         metric := if wm then some (fun h => la.adj (mask a.dom (fun k j => ofList icov j * la.jac h k j))) else none }
+  | .const energy _ v, _, wm =>
+      -- NullOperator Jacobian; ConstantEnergyOperator adds a NullOperator metric when one is wanted
+      { val := v, jac := fun _ _ _ => 0, adj := fun _ _ _ => 0,
+        metric := if energy && wm then some (fun _ _ _ => 0) else none }
 
 end defs
 end NiftyVerif.Expr
